@@ -157,8 +157,12 @@ func (w *World) Deliver(kind string, msg sdk.Msg) *MsgStep {
 	// structs): round-trip through the protobuf Any encoding as a tx decode does
 	var res chain.Result
 	if dec, err := wireRoundTrip(w.C, msg); err != nil {
+		// a message that has no wire encoding (e.g. a timestamp beyond year 9999) cannot reach a chain at all:
+		// it is not part of the history (no trace step, no monitor call)
 		G.Count("undecodable/"+kind, 1)
-		res = chain.Result{Err: fmt.Errorf("tx decode: %w", err), Stage: "decode"}
+		w.Trace.Steps = w.Trace.Steps[:len(w.Trace.Steps)-1]
+		w.StepIdx--
+		return &MsgStep{Index: w.StepIdx, Kind: kind, Msg: msg, Res: chain.Result{Err: fmt.Errorf("tx decode: %w", err), Stage: "decode"}, Pre: pre, Post: pre}
 	} else {
 		msg = dec
 		res = w.C.Deliver(msg)
